@@ -191,7 +191,16 @@ def translate(src: Path) -> dict:
         dd = ast.unparse(find_func(dc.body, '_disconnect_detached'))
         if 'asyncio.shield' not in dd or 'self.disconnect(reason)' not in dd or 'ensure_future' not in dd:
             raise Refuse('_disconnect_detached: expected await asyncio.shield(asyncio.ensure_future(self.disconnect(reason)))')
+    # Network._on_connect_to_peer: is every relayed ConnectToPeer request handed to _handle_connect_to_peer?
+    octp = find_func(cls.body, '_on_connect_to_peer')
+    ob = [st for st in octp.body if not (isinstance(st, ast.Expr) and isinstance(st.value, ast.Constant))]
+    tail = [ast.unparse(st).split('(')[0] for st in ob[-3:]]
+    if tail != ['task = asyncio.create_task', 'task.add_done_callback', 'self._create_peer_connection_tasks.append'] \
+            or 'self._handle_connect_to_peer(message)' not in ast.unparse(ob[-3]):
+        raise Refuse('_on_connect_to_peer: the task creation changed')
+    handles_all = len(ob) == 3
     flags = [
+        ('RESPONDER_HANDLES_EVERY_REQUEST', handles_all, '_on_connect_to_peer starts _handle_connect_to_peer for every ConnectToPeer request (no earlier return / condition)'),
         ('SEND_FAILURE_DISCONNECT_DETACHED', send_detached, 'DataConnection._send closes the connection from a shielded task of its own when the write fails'),
         ('INDIRECT_CLOSES_ARRIVED_ON_CANCEL', ind_closes_arrived, '_make_indirect_connection cancelled after the pierce connection arrived disconnects that connection'),
         ('PIERCE_IGNORES_DONE_WAITER', pierce_checks_done, 'on_peer_accepted treats a PeerPierceFirewall for an already cancelled waiter as an unknown ticket'),
